@@ -738,6 +738,17 @@ size_t rtosc_bundle(char *buffer, size_t len, uint64_t tt, int elms, ...)
 {
     char *_buffer = buffer;
     memset(buffer, 0, len);
+
+    //Abort if the bundle cannot fit
+    size_t total_len = 8+8;
+    va_list va_size;
+    va_start(va_size, elms);
+    for(int i=0; i<elms; ++i)
+        total_len += 4+rtosc_message_length(va_arg(va_size, const char*), -1);
+    va_end(va_size);
+    if(total_len > len)
+        return 0;
+
     strcpy(buffer, "#bundle");
     buffer += 8;
     emplace_uint64((uint8_t*)buffer, tt);
